@@ -9,6 +9,7 @@ THEOREMS = {
         "Dawgs.C19.Props.resume_complete_or_refuse",
         "Dawgs.C19.Props.resume_completes_from_clean",
         "Dawgs.C19.Props.window_publish_before_record",
+        "Dawgs.C19.Props.completed_resume_holds_every_entity_once",
         "Dawgs.C19.Props.identity_binds_every_field",
         "Dawgs.C19.Props.resume_refuses_on_identity_change",
         "Dawgs.C19.Props.resume_ignores_exempt_fields",
@@ -130,10 +131,64 @@ def finding_key(suite, ops, line, msg):
     return "C19:%s:%s" % (op, cls)
 
 
+# clause of the statement in properties.jsonl -> what carries it. "Setting" = the hypotheses of the protocol theorems: the identity's targets
+# are the database's graphs, graph names distinct, ShardSize >= 1. Crash = any prefix of the operation list (one op per hook point);
+# "Reach" = directories reachable by crashing the dump or any resume any number of times.
+CLAUSES = {
+    "interrupted at any point (crash or error between any two file-system or database operations) => no manifest exists for it":
+        "no_manifest_before_end (NO hypotheses: every database, every identity): manifest.json is absent after every prefix of the operation list up to "
+        "the manifest rename, which is the second-to-last step; the one later crash point leaves a complete dump plus the stale checkpoint. Database "
+        "read errors: TIE ONLY (the driver simulates where the fault surfaces; harness injects one at every fetch, immediately and after 0/1/2 records, "
+        "and the monitor demands 'no manifest' after each)",
+    "a subsequent resume against the unchanged source either completes with a dump equivalent to an uninterrupted one ... or fails with an error "
+    "without damaging the committed fragments; repeated crashes during resume":
+        "resume_complete_or_refuse under Setting, for every directory in Reach: refused => every non-temp path (checkpoint, manifest, fragments, foreign "
+        "files) is exactly as before; ok => directory = directory of the uninterrupted dump at every path. resume_completes_from_clean (the completing "
+        "branch is taken from every genuine checkpoint version with its fragments in place), window_publish_before_record (the only refusing window of "
+        "an honest run: fragment published, not yet recorded)",
+    "(every entity exactly once, consistent manifest, no checkpoint left)":
+        "completed_resume_holds_every_entity_once under Setting + distinct node ids and distinct relationship ids per graph: the uninterrupted dump's "
+        "and every completed resume's directory is finalGet t - manifest lists t.done, fragments are the committed ones, no checkpoint, no temp, nothing "
+        "else - and t.done has one entry per graph in order with the graph's name and counts whose fragments hold every node and every relationship "
+        "exactly once in id order (HoldsGraph; C18's cursor invariant carried across checkpoint versions). Fragment sizes (<= ShardSize, all but last "
+        "full) for the interrupted run: TIE ONLY (C18.shard_partition is for the uninterrupted assemble; the byte comparison `final` checks it)",
+    "a resume never succeeds if the options differ":
+        "identity_binds_every_field (no hypotheses: identityOf a = identityOf b <=> agree on driver, targets + order, compression, level, scrub mode, "
+        "shard, batch and - when scrubbing - salt and scrub configuration), resume_refuses_on_identity_change (any checkpoint written under o, any o' "
+        "not SameBound: refused, NO file-system op), resume_ignores_exempt_fields; that the CODE builds and compares the identity that way: T-tie "
+        "every_option_bound, exempt_fields_unbound, option_binding_as_modelled, every_param_bound, identity_fields_modelled, config_digest_covers, "
+        "salt_digest_order, whole_identity_compared (facts re-extracted from retriever/*.go by go/ast each run)",
+    "... the source changed":
+        "COUNTS only - that is all the code checks and all that is proved: resume_refuses_on_source_count_change, "
+        "resume_refuses_on_completed_source_change (any completed graph j), resume_refuses_on_current_source_change (snapshot of the graph in progress); "
+        "no hypotheses beyond 'the checkpoint is in the directory'. T-tie source_guards_as_modelled (both guards present, loop without early exit). A "
+        "change that keeps every count (property edit, delete+add) is not seen by these guards; stated in the note, not counted as satisfied",
+    "... or the directory holds files the checkpoint does not account for":
+        "resume_refuses_on_unexpected_file (any path that is not the checkpoint, a known temp or a committed fragment), resume_ok_iff_no_foreign_file "
+        "(under Setting, genuine version, fragments in place: ok <=> no such path); T-tie walk_skips_only_directories",
+    "scrub on: resumed dump = uninterrupted dump":
+        "the protocol theorems are parametric in the entity content, so they hold for scrubbed content PROVIDED scrubbing is a function of the entity "
+        "and the bound options; proved for the plan cache only: scrub_plan_cache_unobservable (+ T-tie scrub_plan_from_cache_key_only, counterexample "
+        "scrub_plan_from_raw_key_observable). The scrubber's value functions: TIE ONLY (byte-identity of resumed vs uninterrupted dump, scrub on, at "
+        "every crash point)",
+    "C19_full": "c19_full: the three parts above as one statement under Setting",
+    "searched only (tie)": "that Model/C19.lean's operation list is what Dump / resume do: suite c19 crashes the real Dump at EVERY hook point k = 0..N+1 "
+        "of every generated small database (and resumes crashing again, torn temps, read faults at every fetch) and compares the directory after each "
+        "with applyOps (take k ops); suite obs19 feeds names, sizes, sha256 to the Lean monitor (no manifest while interrupted, committed fragments "
+        "untouched by a refusal, completed = byte-identical to uninterrupted modulo generated_at). Also tie only: databases larger than the generated "
+        "ones, the three codecs, the scrubber's value functions, fragment-size bounds of an interrupted run",
+    "named assumptions": "Setting (targets = the database's graphs, distinct names, ShardSize >= 1); distinct ids per graph; source unchanged between "
+        "interruption and resume unless the case says otherwise; atomic rename and no loss of completed steps (process crash, NOT power loss: the code "
+        "never fsyncs); SHA-256 collision free (the model compares recorded content); in-process abort = killed process (Dump has no deferred cleanup); "
+        "exempt option fields OutputDir / Force / Resume / ProgressInterval / Progress are not identity",
+}
+
+
 def extra_coverage(ctx, stats):
     points = {k[len("crashed."):]: v for k, v in stats.items() if k.startswith("crashed.")}
     rpoints = {k[len("resume.crashed."):]: v for k, v in stats.items() if k.startswith("resume.crashed.")}
     return {
+        "clause_map": CLAUSES,
         "crash_points_enumerated": int(stats.get("gen.crash_points", 0)),
         "crash_points_by_name": points,
         "resume_crash_points_by_name": rpoints,
@@ -154,7 +209,7 @@ SPEC = {
     "lean_modules": ["Dawgs.Props.C19", "Dawgs.Props.C19Identity"],
     "regen": regen,
     "theorems_by_module": THEOREMS,
-    "gate_modules": ["Dawgs.Model.C19", "Dawgs.Model.C19Scrub", "Dawgs.Spec.C19", "Dawgs.Proofs.C19", "Dawgs.Props.C19", "Dawgs.Props.C19Identity"],
+    "gate_modules": ["Dawgs.Model.C19", "Dawgs.Model.C19Scrub", "Dawgs.Spec.C19", "Dawgs.Proofs.C19", "Dawgs.Proofs.C19Content", "Dawgs.Props.C19", "Dawgs.Props.C19Identity"],
     "suites": [
         {"name": "c19", "model_suite": "c19", "monitor_suite": None, "keep_prefix": 2, "thorough_seeds": 2, "shrink_budget": 200},
         {"name": "obs19", "model_suite": None, "monitor_suite": "c19mon", "keep_prefix": 2, "thorough_seeds": 2, "shrink_budget": 200},
@@ -187,8 +242,8 @@ SPEC = {
                           "gen.scrubbed_cases", "gen.foreign_files", "gen.foreign_dirs"],
     "trusted_base": ["file system: atomic rename, a crash loses no completed step (process crash, not power loss: the code never fsyncs)",
                      "SHA-256 idealised as collision free (the model compares recorded content)",
-                     "verif-tagged crash hook retriever.VerifCrashHook / verifCrashPoint (hooks/C19.patch, add-only; applied through go build -overlay "
-                     "until it is committed to the repository)",
+                     "verif-tagged crash hook retriever.VerifCrashHook / verifCrashPoint (add-only, committed in /repo; hooks/C19.patch is the same "
+                     "change and is applied through go build -overlay only when a checkout lacks it)",
                      "harness/fakedb.go in-memory graph.Database",
                      "tools/extract/c19 (go/ast fact extractor of the option / identity / scrub-configuration fields and of the salt-digest "
                      "order, purely syntactic; its behavioural consequence is cross-checked by the one-field-changed resume cases)"],
@@ -205,12 +260,19 @@ MANIFEST = {
     "category": "proof",
     "technique": "Lean 4 proof over all crash prefixes of the file-system protocol (checkpoint versions, write-temp-then-rename, resume validation) "
                  "+ crash injection at every hook point of the real Dump compared with the model, + observation monitor",
-    "text": "Lean theorems for all well-formed databases, all batch/shard sizes >= 1: no manifest exists before the last two steps of a dump (and then "
-            "the dump is complete); from every directory reachable by crashing the dump or any resume any number of times, resume either refuses "
-            "touching nothing but known temp files, or completes to exactly the directory of an uninterrupted dump with no checkpoint left; resume "
-            "refuses on changed options, changed source counts and unexpected files; the publish-before-record window is a refusal. Every run "
-            "crashes the real Dump at every hook point of small databases, compares the directory with the model's prefix state, resumes (with "
-            "further crashes and DB read faults) and compares the result with an uninterrupted dump.",
-    "note": "Power loss (no fsync) is out of scope. A crash between publishing a fragment and recording it leaves a directory every later resume refuses "
-            "(allowed by the property; reported as an observation). Trusted: rename atomicity, SHA-256, the fake database, the add-only crash hook.",
+    "text": "Clause map in coverage.clause_map. Proved in Lean for every database of graphs with distinct names and every identity whose targets are "
+            "those graphs with ShardSize >= 1 (Setting): no manifest exists after any prefix of the dump's steps before the manifest rename (this part "
+            "without any hypothesis); from every directory reachable by crashing the dump or any resume any number of times, resume either refuses "
+            "leaving every non-temp file exactly as it was, or completes to exactly the directory of an uninterrupted dump with no checkpoint left; "
+            "with distinct ids that directory lists every graph once and its fragments hold every node and relationship exactly once in id order; "
+            "resume never succeeds under a checkpoint whose identity differs in any bound option (every DumpOptions field except OutputDir, Force, "
+            "Resume, ProgressInterval, Progress; salt and scrub configuration when scrubbing), when a recorded source COUNT differs, or when the "
+            "directory holds a path that is not the checkpoint, a known temp or a committed fragment. Tie every run: the real Dump is crashed at "
+            "every hook point of small databases, the directory compared with the model's prefix state, resumed (further crashes, torn temps, DB "
+            "read faults) and compared byte for byte with an uninterrupted dump, scrubbing off and on; identity / guard / walk facts re-extracted "
+            "from the source.",
+    "note": "Source change is detected by counts only (code and theorems alike): a change that keeps every count is not refused. Power loss (no fsync) "
+            "is out of scope. A crash between publishing a fragment and recording it leaves a directory every later resume refuses (allowed by the "
+            "property). Tie only: model = code, the codecs, the scrubber's value functions (only its plan cache is proved), fragment-size bounds of an "
+            "interrupted run. Trusted: rename atomicity, SHA-256, the fake database, the add-only crash hook. No known finding.",
 }
